@@ -30,7 +30,7 @@ def laminar_field(D, N, forcing, wfactor, omega, gamma, g):
 
 def run(tier: str, seed: int) -> int:
     run_ = Run(PID, tier, seed)
-    setup_jax(True)
+    jax = setup_jax(True)
     import jax.numpy as jnp
     import exponax as ex
     rng = np.random.default_rng(seed)
@@ -88,6 +88,8 @@ def run(tier: str, seed: int) -> int:
                                      "predicted_amplitude": g * gamma * omega ** wfac * (km if wfac else 1), "rel_err": err / scale})
                         nsamp += 1
             run_.traces += 1
+            if run_.traces % 40 == 0:
+                jax.clear_caches()          # thousands of distinct compiled scans otherwise exhaust the process's memory maps (LLVM: cannot allocate memory)
     # ForcedStepper: zero forcing == unforced, forcing f == unforced step of u + dt f (physical and Fourier entry points)
     for c in zoo.cases(tier, orders=(2,), all_variants=False):
         if tier == "quick" and c["D"] != registry.dims_of(c["name"])[0]:
